@@ -6,6 +6,7 @@ package main
 import (
 	"fmt"
 	"go/token"
+	"strings"
 	"go/types"
 )
 
@@ -62,6 +63,42 @@ var _ = token.NoPos
 // specification vocabulary: assumed facts about trusted APIs) into a global
 // SMT axiom. Axioms are listed as assumptions in every evidence file.
 func (c *Ctx) InstallAxioms() error {
+	// ghost fields become heap components of their struct
+	for i, gf := range c.spec.GhostFields {
+		fi := &FuncInfo{Key: "ghostfield:" + gf.Name, Pkg: c.pkgs[0]}
+		fx := &FuncExec{ctx: c, reg: c.reg, pkg: c.pkgs[0], fi: fi}
+		dot := strings.Index(gf.Name, ".")
+		if dot < 0 {
+			return fmt.Errorf("ghostfield %s: want Struct.field", gf.Name)
+		}
+		var err error
+		func() {
+			defer func() {
+				if r := recover(); r != nil {
+					err = fmt.Errorf("ghostfield %s: %v", gf.Name, r)
+				}
+			}()
+			gpkg := c.pkgByPath(c.spec.GhostFieldPkg[i])
+			ssort, _ := fx.typeFromString("*"+gf.Name[:dot], gpkg)
+			si := c.reg.structs[ssort]
+			if si == nil {
+				panic("not a struct")
+			}
+			fsort, ft := fx.typeFromString(gf.Type, gpkg)
+			f := gf.Name[dot+1:]
+			comp := "F_" + sanitize(si.Name) + "_" + f
+			si.Comp[f] = comp
+			si.FieldT[f] = ft
+			si.GhostF = append(si.GhostF, f)
+			c.reg.addComp(comp, fmt.Sprintf("(Array %s %s)", ssort, fsort))
+			if ft == nil {
+				si.GhostSort = map[string]string{f: fsort}
+			}
+		}()
+		if err != nil {
+			return err
+		}
+	}
 	// global ghost variables become heap components GV_<name>
 	for i, gv := range c.spec.GhostVars {
 		fi := &FuncInfo{Key: "ghostvar:" + gv.Name, Pkg: c.pkgs[0]}
